@@ -45,13 +45,17 @@ class Native:
         self.side = load_sidecar(sidecar_path)
         self.repo_root = repo_root
         self.ns: dict[str, Any] = {}
-        self.ns.update({"implies": lambda a, b: (not a) or b})
+        self.ns.update({"implies": lambda a, b: (not a) or b, "opaque": lambda f: f,
+                        "dict_update": lambda a, b: {**a, **b}, "dict_store": lambda a, k, v: {**a, k: v},
+                        "maps_agree": lambda a, b: dict(a) == dict(b)})
         if hasattr(self.side, "native_env"):
             self.ns.update(self.side.native_env(self))
         if getattr(self.side, "SPECS", ""):
             exec(self.side.SPECS, self.ns)
         for extra in getattr(self.side, "NATIVE_SPEC_SOURCES", []):
             exec(getattr(self.side, extra), self.ns)
+        if hasattr(self.side, "native_env"):
+            self.ns.update(self.side.native_env(self))   # native definitions of @opaque / builtin spec symbols win
         self.files = getattr(self.side, "FILES", None) or {"": self.side.MODULE}
         self.universe: dict[str, list[Any]] = {}
         self.ns.setdefault("forall", lambda fn, *tys, **kw: self._quant(all, fn, tys))
@@ -129,6 +133,14 @@ class Native:
 
     def eval_clause(self, text: str, env: dict[str, Any], old_env: dict[str, Any] | None) -> Any:
         node = ast.parse(text.strip(), mode="eval")
+
+        class T(ast.NodeTransformer):  # solver triggers mean nothing natively
+            def visit_Call(s, n: ast.Call) -> Any:  # noqa: N805
+                s.generic_visit(n)
+                if isinstance(n.func, ast.Name) and n.func.id in ("forall", "exists"):
+                    n.keywords = [k for k in n.keywords if k.arg != "triggers"]
+                return n
+        node = ast.fix_missing_locations(T().visit(node))
         if old_env is not None and self.old_snapshot is not None and "old(" in text:
             # old(e) becomes a call that evaluates e (a closure over any bound variables) in the pre-state heap
             class L(ast.NodeTransformer):
